@@ -90,7 +90,15 @@ type Cache interface {
 }
 
 // Run executes the steps and returns one observation string per step.
-func Run(c Cache, steps []Step) []string {
+func Run(c Cache, steps []Step) []string { return RunEvery(c, steps, 1) }
+
+// RunEvery is Run with the resident state recorded after every every-th step
+// (and after the last one) only; return values are recorded at every step.
+// For capacities in the thousands, where a full state per step is too much.
+func RunEvery(c Cache, steps []Step, every int) []string {
+	if every < 1 {
+		every = 1
+	}
 	out := make([]string, len(steps))
 	for i, s := range steps {
 		var sb strings.Builder
@@ -105,6 +113,10 @@ func Run(c Cache, steps []Step) []string {
 			fmt.Fprintf(&sb, "ret=%v", c.SetDirty(key, s.Op == OpMarkDirty))
 		case OpRestore:
 			fmt.Fprintf(&sb, "ret=%v", c.Restore(key))
+		}
+		if i%every != 0 && i != len(steps)-1 {
+			out[i] = sb.String()
+			continue
 		}
 		keys, ids, dirty, ml, ll := c.State()
 		fmt.Fprintf(&sb, " map=%d list=%d [", ml, ll)
@@ -138,6 +150,11 @@ type Spec struct {
 	Steps int    `json:"steps,omitempty"`
 	Dirty int    `json:"dirty,omitempty"`
 	Full  bool   `json:"full,omitempty"` // return the whole trace instead of a hash
+	// large capacities: the first Prefill steps store the keys 0..Prefill-1
+	// (dirty with probability Dirty%), and the state is recorded every
+	// Every-th step only
+	Prefill int `json:"prefill,omitempty"`
+	Every   int `json:"every,omitempty"`
 }
 
 func (sp *Spec) Sequences(f func(n uint64, steps []Step)) {
@@ -147,5 +164,16 @@ func (sp *Spec) Sequences(f func(n uint64, steps []Step)) {
 		}
 		return
 	}
-	f(0, Random(sp.Seed, sp.Steps, sp.Keys, sp.Dirty))
+	var pre []Step
+	if sp.Prefill > 0 {
+		r := core.NewRand(sp.Seed ^ 0x9e3779b97f4a7c15)
+		for k := 0; k < sp.Prefill; k++ {
+			op := OpSetClean
+			if r.Intn(100) < sp.Dirty {
+				op = OpSetDirty
+			}
+			pre = append(pre, Step{Op: op, Key: k})
+		}
+	}
+	f(0, append(pre, Random(sp.Seed, sp.Steps, sp.Keys, sp.Dirty)...))
 }
